@@ -589,7 +589,38 @@ pub fn supplemental_lists(v_ix: &rt::Ix, pre: &Ledger, post: &Ledger, salt: u64,
     }
     if pool_side_accounts(&f, &lg) != pool_side_accounts(post, &lg) {
         out.push(viol("supplemental_arrays_change_outcome", idx, format!("two_hop_swap_v2 leaves different pool-side state when {} + {} supplemental tick arrays are added", n1, n2)));
+        return;
     }
+    if let Some(d) = duplicated_slice_accepted(v_ix, pre, cov) {
+        out.push(viol("duplicated_slice_type_accepted", idx, d));
+    }
+}
+
+/// the same slice type listed twice in the remaining accounts of a two_hop_swap_v2 (the first time with a tick array of the
+/// OTHER pool, which then nobody checks): the only acceptable outcome is a refusal
+pub fn duplicated_slice_accepted(v_ix: &rt::Ix, pre: &Ledger, cov: &mut Coverage) -> Option<String> {
+    let c = wpix::decode(v_ix)?;
+    if c.name() != "two_hop_swap_v2" || v_ix.data.last() != Some(&0) || !c.remaining().is_empty() {
+        return None;
+    }
+    let lg = legs(&c, pre)?;
+    for (ty, own, other) in [(7u8, &lg.sa1.tick_arrays, &lg.sa2.tick_arrays), (8u8, &lg.sa2.tick_arrays, &lg.sa1.tick_arrays)] {
+        let mut ix3 = v_ix.clone();
+        let mut data = v_ix.data[..v_ix.data.len() - 1].to_vec();
+        data.push(1);
+        data.extend_from_slice(&2u32.to_le_bytes());
+        data.extend_from_slice(&[ty, 1, ty, 1]);
+        ix3.data = data;
+        ix3.accounts.push(rt::Meta { pubkey: other[0], is_signer: false, is_writable: true });
+        ix3.accounts.push(rt::Meta { pubkey: own[0], is_signer: false, is_writable: true });
+        let mut f3 = pre.clone();
+        let r3 = run(&mut f3, ix3);
+        cov.probe("duplicated_slice_type_variants");
+        if r3.ok {
+            return Some(format!("two_hop_swap_v2 succeeds although the slice type {} is listed twice in its remaining accounts (the first slice carrying a tick array of the other pool)", if ty == 7 { "SupplementalTickArraysOne" } else { "SupplementalTickArraysTwo" }));
+        }
+    }
+    None
 }
 
 /// shared with C15 ("two distinct pools"): Some(description) when a two-hop naming one pool in both legs goes through
